@@ -15,8 +15,8 @@
    (assert is_realizable) is part of the C02/C05 models. *)
 From Coq Require Import List Bool Arith Lia.
 From Omega Require Import L4.Arena L4.Kleene L4.InitSpec.
-From OmegaGen Require Import FixpointGen Gr1Gen.
-From OmegaGP Require Import InitProofs.
+From OmegaGen Require Import FixpointGen Gr1Gen TransducerGen.
+From OmegaGP Require Import InitProofs TransducerModel StreettNB2 ConstructionSucceeds.
 
 Section C03.
 Variables nc nx ny : nat.
@@ -74,6 +74,31 @@ Theorem C03_init_succeeds : forall q fuel internal win,
 Proof. exact (make_init_succeeds nc nx ny env_init sys_init plus_one). Qed.
 End C03.
 
+(* "Whenever the verdict is true and the winning region is non-empty,
+   constructing the implementation succeeds": for the TRANSLATED Streett(1)
+   construction applied to the translated solver's result, none of the
+   refusals fires (is_realizable, non-empty action, _make_init).  The winning
+   region is non-empty = some in-range valuation is winning.  G = number of
+   values of the goal counter's bit field. *)
+Theorem C03_streett_construction_succeeds :
+  forall nc nx ny (E S EI SI : bdd) (holds goals : list bdd) (moore plus_one : bool)
+         qinit fuel G,
+  NV nc nx ny <= fuel -> Forall spred holds -> Forall spred goals ->
+  0 < G -> length goals <= G -> 0 < length goals ->
+  let sol := Gr1Gen.solve_streett_game nc nx ny E S holds goals moore plus_one fuel in
+  let z := fst (fst sol) in
+  let L := lift nc nx ny G in
+  Gr1Gen.is_realizable nc nx (ny * G) (L EI) (L SI) plus_one qinit fuel (L z) = Some true ->
+  (exists c x yb, c < nc /\ x < nx /\ yb < ny /\ z (sv c x yb) = true) ->
+  StreettGen.make_streett_transducer nc nx ny G (L E) (L S) (L EI) (L SI)
+    (map L holds) (map L goals) moore plus_one qinit fuel
+    (L z) (map (map L) (snd (fst sol))) (map (map (map L)) (snd sol)) <> None.
+Proof.
+  intros nc nx ny E S EI SI holds goals moore plus_one qinit fuel G Hf Sh Sg HG HnG Hg sol z L.
+  exact (streett_construction_succeeds nc nx ny E S EI SI holds goals moore plus_one qinit
+           fuel G Hf Sh Sg HG HnG Hg).
+Qed.
+
 Import ListNotations.
 Local Open Scope bool_scope.
 (* non-vacuity: a realizable and an unrealizable instance of each form *)
@@ -95,3 +120,4 @@ Print Assumptions C03_init_refused_iff_empty.
 Print Assumptions C03_init_sound.
 Print Assumptions C03_init_sound_exists_forall.
 Print Assumptions C03_init_succeeds.
+Print Assumptions C03_streett_construction_succeeds.
